@@ -17,6 +17,7 @@ EXPLANATION = (
     "_read_one_message converts DecodeError into a None result, and the may-escape analysis gives the empty set for _read. R3 records longer than "
     "the known layout are decoded from their known prefix (stride rules of C05.R5 re-used). R4 framing guards that make misreading impossible: "
     "prefix and length-consistency checks (C03.R2), validate-before-decode (C06.R5), assert_complete (C03.R4)."
+    ' Rounds 7-8: R1 also: the 0x1F / 0xC0 wrapper decoders raise nothing themselves.'
 )
 ASSUMPTIONS = ["slicing never raises; dict.get returns None on a miss"]
 FLOORS = {"C17.R1": 14, "C17.R2": 6, "C17.R3": 6, "C17.R4": 10, "C17.R5": 1, "C17.R6": 1, "C17.R7": 1}
